@@ -409,7 +409,10 @@ class New(cssutils.util._BaseClass):
             # :func(expression)"
             self.append(seq, val, 'function-end', token=token)
             self.context.pop()  # pseudo is done
-            if 'pseudo-element' == context:
+            if 'negation' == self.context[-1]:
+                # :not(:func(expression)), as for :not([attrib])
+                return Constants.negationend
+            elif 'pseudo-element' == context:
                 return Constants.combinator
             else:
                 return Constants.simple_selector_sequence + Constants.combinator
